@@ -25,10 +25,15 @@ func genLayoutTree(c *core.Ctx, cfgIdx int) layoutCase {
 	cfg := treeConfigs[cfgIdx%len(treeConfigs)]
 	t := newTree(cfg.dir, cfg.ext)
 	g := newStmtGen(r, stmtGenOpts{MaxDepth: 1 + r.Intn(3), IfHeavy: true, LoopHeavy: r.Intn(2) == 0})
-	layoutName := []string{"layouts/main", "layouts/base", "shared/frame"}[r.Intn(3)]
+	layoutName := []string{"layouts/main", "layouts/base.v2", "shared/frame", "layouts/mail.min"}[r.Intn(4)]
 	reserves := fmtNames("r", 1+r.Intn(3))
 	body := g.program(2 + r.Intn(4))
 	body = insertReserves(r, body, reserves)
+	// the layout and the insert blocks run in one scope: what an insert assigns is seen further down
+	withAcc := r.Intn(3) == 0
+	if withAcc {
+		body = append(append([]model.Stmt{model.Assign{Name: "acc", E: model.Lit{V: model.Int(0)}}}, body...), model.Text{S: " acc="}, model.Print{E: model.Var{Name: "acc"}})
+	}
 	t.files[layoutName] = body
 	lc := layoutCase{tree: t, data: g.data, layout: layoutName}
 	nPages := 1 + r.Intn(3)
@@ -51,7 +56,11 @@ func genLayoutTree(c *core.Ctx, cfgIdx int) layoutCase {
 			case 1:
 				stmts = append(stmts, model.Insert{Name: rn, Block: []model.Stmt{}})
 			default:
-				stmts = append(stmts, model.Insert{Name: rn, Block: append([]model.Stmt{model.Text{S: "<" + rn + ">"}}, ig.block(1+r.Intn(3), ig.o.MaxDepth)...)})
+				blk := append([]model.Stmt{model.Text{S: "<" + rn + ">"}}, ig.block(1+r.Intn(3), ig.o.MaxDepth)...)
+				if withAcc {
+					blk = append(blk, model.Assign{Name: "acc", E: model.Binary{Op: "+", L: model.Var{Name: "acc"}, R: model.Lit{V: model.Int(1)}}}, model.Print{E: model.Var{Name: "acc"}})
+				}
+				stmts = append(stmts, model.Insert{Name: rn, Block: blk})
 			}
 			stmts = append(stmts, model.Text{S: " junk between "})
 		}
